@@ -3,6 +3,7 @@ package vc
 // Solver portfolio: z3 5.1.0 (z3-new), z3 4.8.12, cvc5 1.0.3, raced per query.
 
 import (
+	"runtime"
 	"bytes"
 	"context"
 	"crypto/sha256"
@@ -36,6 +37,7 @@ type Solver struct {
 	dirty    bool
 	Stats    map[string]int
 	TotalMs  int64
+	CacheHits int // answers taken from the cache (their original solver time is included in TotalMs)
 }
 
 func NewSolver(outDir string, cacheOn bool, timeout time.Duration) *Solver {
@@ -47,6 +49,13 @@ func NewSolver(outDir string, cacheOn bool, timeout time.Duration) *Solver {
 		}
 	}
 	return s
+}
+
+func (s *Solver) hit(a Answer) {
+	s.mu.Lock()
+	s.CacheHits++
+	s.TotalMs += a.Ms
+	s.mu.Unlock()
 }
 
 func (s *Solver) Save() {
@@ -62,7 +71,20 @@ func (s *Solver) Save() {
 	}
 }
 
-func runOne(ctx context.Context, name string, args []string, file string) (string, string) {
+// slots bounds the number of solver processes running at once: the solvers' own time limits are wall-clock,
+// so an oversubscribed machine turns proofs into timeouts.
+var slots = make(chan struct{}, runtime.NumCPU())
+
+// runOne runs one solver process; its time limit (sec, plus a grace period) starts when it gets a CPU slot.
+func runOne(parent context.Context, name string, args []string, file string, sec int) (string, string) {
+	select {
+	case slots <- struct{}{}:
+	case <-parent.Done():
+		return "timeout", "cancelled before start"
+	}
+	defer func() { <-slots }()
+	ctx, cancelT := context.WithTimeout(parent, time.Duration(sec+2)*time.Second)
+	defer cancelT()
 	cmd := exec.CommandContext(ctx, name, append(args, file)...)
 	var out bytes.Buffer
 	cmd.Stdout = &out
@@ -123,6 +145,7 @@ func (s *Solver) Solve(query string) Answer {
 		a, ok := s.cache[key]
 		s.mu.Unlock()
 		if ok && (a.Result == "unsat" || a.Result == "sat") {
+			s.hit(a)
 			a.Cached = true
 			a.File = file
 			if _, err := os.Stat(file); err != nil {
@@ -160,13 +183,13 @@ func (s *Solver) race(file string) Answer {
 		if quick > sec {
 			quick = sec
 		}
-		ctx, cancel := context.WithTimeout(context.Background(), time.Duration(quick+1)*time.Second)
+		ctx, cancel := context.WithCancel(context.Background())
 		type r1 struct{ r, out, name string }
 		c1 := make(chan r1, 2)
 		for _, sc := range solverCmds[:2] {
 			sc := sc
 			go func() {
-				r, out := runOne(ctx, sc.bin, sc.args(quick), file)
+				r, out := runOne(ctx, sc.bin, sc.args(quick), file, quick)
 				c1 <- r1{r, out, sc.name}
 			}()
 		}
@@ -182,13 +205,13 @@ func (s *Solver) race(file string) Answer {
 	type res struct {
 		r, out, solver string
 	}
-	ctx, cancel := context.WithTimeout(context.Background(), time.Duration(sec+2)*time.Second)
+	ctx, cancel := context.WithCancel(context.Background())
 	defer cancel()
 	ch := make(chan res, len(solverCmds))
 	for _, sc := range solverCmds {
 		sc := sc
 		go func() {
-			r, out := runOne(ctx, sc.bin, sc.args(sec), file)
+			r, out := runOne(ctx, sc.bin, sc.args(sec), file, sec)
 			ch <- res{r, out, sc.name}
 		}()
 	}
@@ -237,9 +260,9 @@ func (s *Solver) Probe(query string, sec int) Answer {
 		}
 	}
 	os.WriteFile(file, []byte(query), 0o644)
-	ctx, cancel := context.WithTimeout(context.Background(), time.Duration(sec+1)*time.Second)
+	ctx, cancel := context.WithCancel(context.Background())
 	defer cancel()
-	r, _ := runOne(ctx, solverCmds[0].bin, solverCmds[0].args(sec), file)
+	r, _ := runOne(ctx, solverCmds[0].bin, solverCmds[0].args(sec), file, sec)
 	a := Answer{Result: r, Solver: solverCmds[0].name, File: file}
 	s.mu.Lock()
 	s.cache[key] = a
@@ -268,10 +291,12 @@ func (s *Solver) SolveEither(q1, q2 string) Answer {
 		a2, ok2 := s.cache[k2]
 		s.mu.Unlock()
 		if ok1 && a1.Result == "unsat" {
+			s.hit(a1)
 			a1.Cached, a1.File = true, f1
 			return a1
 		}
 		if ok2 && a2.Result == "unsat" {
+			s.hit(a2)
 			a2.Cached, a2.File = true, f2
 			return a2
 		}
@@ -280,14 +305,14 @@ func (s *Solver) SolveEither(q1, q2 string) Answer {
 	os.WriteFile(f2, []byte(q2), 0o644)
 	sec := int(s.Timeout.Seconds())
 	start := time.Now()
-	ctx, cancel := context.WithTimeout(context.Background(), time.Duration(sec+2)*time.Second)
+	ctx, cancel := context.WithCancel(context.Background())
 	defer cancel()
 	ch := make(chan res, 4)
 	for i, f := range []string{f1, f2} {
 		for _, sc := range solverCmds[:2] {
 			i, f, sc := i, f, sc
 			go func() {
-				r, out := runOne(ctx, sc.bin, sc.args(sec), f)
+				r, out := runOne(ctx, sc.bin, sc.args(sec), f, sec)
 				ch <- res{Answer{Result: r, Solver: sc.name, Output: out, File: f}, i}
 			}()
 		}
@@ -335,17 +360,18 @@ func (s *Solver) SolveQuick(query string, sec int) Answer {
 		a, ok := s.cache[key]
 		s.mu.Unlock()
 		if ok && a.Result == "unsat" {
+			s.hit(a)
 			a.Cached, a.File = true, file
 			return a
 		}
 	}
 	os.WriteFile(file, []byte(query), 0o644)
 	start := time.Now()
-	ctx, cancel := context.WithTimeout(context.Background(), time.Duration(sec+1)*time.Second)
+	ctx, cancel := context.WithCancel(context.Background())
 	defer cancel()
-	r, out := runOne(ctx, solverCmds[1].bin, solverCmds[1].args(sec), file)
+	r, out := runOne(ctx, solverCmds[1].bin, solverCmds[1].args(sec), file, sec)
 	if r != "unsat" {
-		r, out = runOne(ctx, solverCmds[0].bin, solverCmds[0].args(sec), file)
+		r, out = runOne(ctx, solverCmds[0].bin, solverCmds[0].args(sec), file, sec)
 	}
 	a := Answer{Result: r, Solver: solverCmds[0].name + "/sliced", Output: out, File: file, Ms: time.Since(start).Milliseconds()}
 	if r == "unsat" {
@@ -359,4 +385,152 @@ func (s *Solver) SolveQuick(query string, sec int) Answer {
 		s.mu.Unlock()
 	}
 	return a
+}
+
+// Variant is one formulation of a proof obligation: the full query, or a lighter one (fewer hypotheses).
+// A proof of a lighter variant is a proof of the obligation; only the full query can refute it.
+type Variant struct {
+	Name  string
+	Query string
+	Full  bool
+}
+
+// SolvePortfolio decides one obligation given several formulations.  Stage A runs the first two light
+// variants briefly with pure E-matching (most obligations end here in milliseconds); stage B races every
+// variant under both z3 configurations, and the full ones under the older z3 and cvc5 as well, for the
+// full time limit.  The first `unsat` wins; `sat` counts only from a full variant.
+func (s *Solver) SolvePortfolio(vs []Variant) Answer {
+	var fullQ string
+	for _, v := range vs {
+		if v.Full {
+			fullQ += v.Query
+		}
+	}
+	h := sha256.Sum256([]byte(fullQ))
+	key := hex.EncodeToString(h[:12])
+	file := filepath.Join(s.OutDir, "q", key+".smt2")
+	if s.CacheOn {
+		s.mu.Lock()
+		a, ok := s.cache[key]
+		s.mu.Unlock()
+		if ok && (a.Result == "unsat" || a.Result == "sat") {
+			s.hit(a)
+			a.Cached, a.File = true, file
+			return a
+		}
+	}
+	start := time.Now()
+	files := make([]string, len(vs))
+	firstFull := true
+	for i, v := range vs {
+		if v.Full && firstFull {
+			files[i] = file
+			firstFull = false
+		} else {
+			files[i] = filepath.Join(s.OutDir, "q", fmt.Sprintf("%s.%d.smt2", key, i))
+		}
+		os.WriteFile(files[i], []byte(v.Query), 0o644)
+	}
+	defer func() {
+		for i, f := range files {
+			if f != file {
+				_ = i
+				os.Remove(f)
+			}
+		}
+	}()
+	sec := int(s.Timeout.Seconds())
+	if sec < 1 {
+		sec = 1
+	}
+	type res struct {
+		r, out, solver string
+		full           bool
+	}
+	finish := func(r res) Answer {
+		a := Answer{Result: r.r, Solver: r.solver, Output: r.out, File: file, Ms: time.Since(start).Milliseconds()}
+		s.mu.Lock()
+		s.Stats[a.Solver+":"+a.Result]++
+		s.TotalMs += a.Ms
+		if a.Result == "unsat" || a.Result == "sat" {
+			c := a
+			c.Output, c.File = "", ""
+			s.cache[key] = c
+			s.dirty = true
+		}
+		s.mu.Unlock()
+		return a
+	}
+	// stage A
+	{
+		ctx, cancel := context.WithCancel(context.Background())
+		n := 0
+		ch := make(chan res, 4)
+		launch := func(i int, sc solverCmd) {
+			n++
+			v := vs[i]
+			go func() {
+				r, out := runOne(ctx, sc.bin, sc.args(2), files[i], 2)
+				ch <- res{r, out, sc.name + "/" + v.Name, v.Full}
+			}()
+		}
+		for i, v := range vs {
+			if !v.Full && n < 2 {
+				launch(i, solverCmds[1])
+			}
+		}
+		if n == 0 {
+			for i, v := range vs {
+				if v.Full {
+					launch(i, solverCmds[1])
+					launch(i, solverCmds[0])
+					break
+				}
+			}
+		}
+		var done *res
+		for k := 0; k < n; k++ {
+			r := <-ch
+			if done == nil && (r.r == "unsat" || (r.r == "sat" && r.full && !strings.Contains(r.solver, "ematch"))) {
+				rr := r
+				done = &rr
+				cancel()
+			}
+		}
+		cancel()
+		if done != nil {
+			return finish(*done)
+		}
+	}
+	// stage B
+	ctx, cancel := context.WithCancel(context.Background())
+	defer cancel()
+	total := 0
+	ch := make(chan res, 4*len(vs))
+	for i, v := range vs {
+		cmds := solverCmds[:2]
+		if v.Full {
+			cmds = solverCmds
+		}
+		for _, sc := range cmds {
+			total++
+			i, v, sc := i, v, sc
+			go func() {
+				r, out := runOne(ctx, sc.bin, sc.args(sec), files[i], sec)
+				ch <- res{r, out, sc.name + "/" + v.Name, v.Full}
+			}()
+		}
+	}
+	best := res{r: "timeout", solver: "all"}
+	for k := 0; k < total; k++ {
+		r := <-ch
+		if r.r == "unsat" || (r.r == "sat" && r.full && !strings.Contains(r.solver, "ematch")) {
+			cancel()
+			return finish(r)
+		}
+		if r.full && r.r == "unknown" && best.r == "timeout" {
+			best = r
+		}
+	}
+	return finish(best)
 }
